@@ -547,12 +547,28 @@ def merge(tmpl_toks, src_exec):
     sm = difflib.SequenceMatcher(a=a, b=b, autojunk=False)
     out = []
     pos = 0  # next template token index to emit
+    prev_changed = False
+    last_exec = '{'
     for tag, i1, i2, j1, j2 in sm.get_opcodes():
         if tag == 'equal':
             stop = exec_idx[i2 - 1] + 1
-            out.extend(tmpl_toks[pos:stop])
+            first = exec_idx[i1]
+            lead = tmpl_toks[pos:first]
+            # ghost *statements* (proof blocks, ghost lets, asserts) that stood before the first matched token: after a
+            # change they are kept only if they still land on a statement boundary of the generated text - otherwise the
+            # statement they were written for is gone and they would end up inside an expression (dropped: dropping
+            # ghost code can only make an obligation harder to prove)
+            if prev_changed and lead and lead[0].text in ('proof', 'let', 'assert', 'assume', 'reveal') and last_exec not in (';', '{', '}'):
+                lead = []
+            out.extend(lead)
+            out.extend(tmpl_toks[first:stop])
             pos = stop
+            last_exec = a[i2 - 1]
+            prev_changed = False
         else:
+            prev_changed = True
+            if j2 > j1:
+                last_exec = b[j2 - 1]
             # leading ghost tokens before the first affected exec token
             if i1 < len(exec_idx):
                 first = exec_idx[i1]
